@@ -89,6 +89,7 @@ class Tx:
     self.cls, self.info = cls, CLASSES[cls]
     self.clsnode = next(n for n in tree.body if isinstance(n, ast.ClassDef) and n.name == cls)
     self.kernel_ok = None
+    self.reserved = set(self.info['args']) | {'n'}   # binders of the generated definitions: a Python local of the same name is renamed
 
   def method(self, name):
     for n in self.clsnode.body:
@@ -346,7 +347,7 @@ class Tx:
       t, ty = self.expr(s.value, env)
       name = s.targets[0].id
       env2 = dict(env)
-      fresh = name if name not in env else name + "'"
+      fresh = name if (name not in env and name not in getattr(self, 'reserved', ())) else name + "'"
       env2[name] = (fresh, ty)
       b, tb = self.stmts(rest, env2)
       return '(let %s := %s in %s)' % (fresh, t, b), tb
